@@ -462,6 +462,23 @@ Definition step (w : world) (o : op) : world * (Z * Z * list (Z * Z)) :=
 
 Definition run (w : world) (ops : list op) : world := fold_left (fun w o => fst (step w o)) ops w.
 
+(* ---------------------------------------------------------------- summaries --------------- *)
+Definition tr_derived (t : trace) : bool := t_genesis t || t_from_pool t || t_from_acct t.
+
+Definition vesting_of (w : world) (a : Z) : Z :=
+  match aget a (w_acc w) with Some x => acct_vesting x (unix (w_now w)) (w_denom w) | None => 0 end.
+
+Definition genesis_pools_amount (w : world) : Z :=
+  zsum (map (fun e => zsum (map (fun p => if p_genesis p then pool_currently_locked p else 0) (snd e))) (w_pools w)).
+
+(* grpc_query_vestings_summary.go createVestingsSummary: [all; in pools; in accounts; delegated] *)
+Definition summary (w : world) (genesis_only : bool) : list Z :=
+  let accs := filter (fun e => if genesis_only then tr_derived (snd e) else true) (w_traces w) in
+  let v := zsum (map (fun e => vesting_of w (fst e)) accs) in
+  let l := zsum (map (fun e => locked w (fst e) (w_denom w)) accs) in
+  let p := if genesis_only then genesis_pools_amount w else bal w MODULE (w_denom w) in
+  [v + p; p; v; v - l].
+
 (* ---------------------------------------------------------------- observation ------------- *)
 (* Canonical projection of the tracked part of the world, computed identically by the Go
    harness from the real application (bank / auth / vesting queries). *)
@@ -491,7 +508,8 @@ Definition obs_trace (w : world) (a : Z) : list Z :=
 
 Definition observe (w : world) (addrs denoms : list Z) : list Z :=
   flat_map (fun a => map (fun d => bal w a d) denoms ++ map (fun d => locked w a d) denoms
-                     ++ obs_acct w denoms a ++ obs_pools w a ++ obs_trace w a) addrs.
+                     ++ obs_acct w denoms a ++ obs_pools w a ++ obs_trace w a) addrs
+  ++ summary w false ++ summary w true.
 
 Definition obs_out (o : Z * Z * list (Z * Z)) : list Z :=
   match o with (res, amt, evs) => res :: amt :: Z.of_nat (length evs) :: flat_map (fun e => [fst e; snd e]) evs end.
